@@ -185,6 +185,16 @@ def run(ck):
             ck.ob("TAB", p, "version-agreement", v[0][1]["f"]["path"].endswith("_v1") == h[0][1]["f"]["path"].endswith("_v1"),
                   "hash version equals verifier version", f.loc())
 
+    # the header that is parsed is the header that was signed: undefined feature bits of a v1 header are refused on the value
+    # as read (a header whose unknown bits are dropped re-serialises to the signed bytes although different bytes were received)
+    from vlib import sweeps as _sw
+    hb = [b for pth in crate("rs", CB).paths() if re.search(r"transactions::TransactionHeaderV1 as concordium_base::common::serialize::Deserial>::deserial$", pth) for b in crate("rs", CB).get_all(pth)]
+    if ck.anchor(len(hb) == 1, "BITMAP", "TransactionHeaderV1::deserial", "function exists"):
+        hf_ = Fn(hb[0])
+        bm = _sw.bitmap_locals(hf_)
+        ents = [e for e in bm.values() if e["rejecting"]]
+        ck.ob("BITMAP", hf_.path, "undefined-header-bits-refused", len(ents) >= 1 and any(any(e.get("raw", [])) for e in ents),
+              "unknown feature bits of the v1 header are tested on the raw bitmap and refused", hf_.loc())
     narrowing_len_sweep(ck, crate("rs", "concordium_base"), re.compile(r"concordium_base::transactions::"), re.compile(r"(verify|check)[a-z_0-9]*(::\{closure#\d+\})*$"))
     eq_polarity_sweep(ck, crate("rs", "concordium_base"), re.compile(r"concordium_base::transactions::"), re.compile(r"(verify|check)[a-z_0-9]*(::\{closure#\d+\})*$"))
     rejecting_checks_floor(ck, crate("rs", "concordium_base"), re.compile(r"concordium_base::transactions::"), re.compile(r"(verify|verifier|validate|check|extract_commit_message)[a-z_0-9]*(::\{closure#\d+\})*$"), "C06")
